@@ -1494,6 +1494,9 @@ _steal_cipher:
 _ret_:
 %ifdef SAFE_DATA
         clear_all_zmms_asm
+        ; Clear the tweak values (16*8 bytes)
+        vmovdqa64       [TW], zmm0
+        vmovdqa64       [TW + 4*16], zmm0
         ; Clear expanded keys (16*15 bytes)
         vmovdqa64       [keys], zmm0
         vmovdqa64       [keys + 4*16], zmm0
